@@ -374,6 +374,11 @@ def into_iter(v, it=None):
         return v
     if isinstance(deref(v), HashSetV) and it is not None:
         return hash_order_iter(it, deref(v), 'into_iter')
+    if isinstance(deref(v), BTreeV):
+        m = deref(v)
+        if isinstance(v, Ref):
+            return ListIter([tup(Ref(KeyCell(e)), Ref(SlotCell(e))) for e in m.entries])
+        return ListIter([tup(e[0], e[1]) for e in m.entries])
     if isinstance(v, VecV):
         return ListIter(v.items)          # by value
     if isinstance(v, Ref):
@@ -603,12 +608,6 @@ def m_opt_unwrap_or(it, n, a):
     return v if s else a[1]
 
 
-@model(r'^Option::<.*>::unwrap_or_default$')
-def m_opt_unwrap_or_default(it, n, a):
-    s, v = opt_fork(it, a[0])
-    if s:
-        return v
-    raise Unsupported('unwrap_or_default on None: ' + n)
 
 
 @model(r'^Option::<.*>::unwrap_or_else::<')
@@ -810,16 +809,6 @@ def str_key(it, s):
     if isinstance(s, str):
         return s
     raise Unsupported(f'ordering of a non-concrete string {s!r}')
-
-
-@model(r'slice::<impl \[.*\]>::sort_by_key::<')
-def m_sort_by_key(it, n, a):
-    items = arg0(a)
-    cell = Cell(items)
-    keys = [str_key(it, it.call_closure(a[1], [Ref(cell, (i,))])) for i in range(len(items))]
-    order = sorted(range(len(items)), key=lambda i: keys[i])     # stable, like slice::sort_by_key
-    items[:] = [items[i] for i in order]
-    return unit()
 
 
 @model(r'^Vec::<.*>::dedup_by_key::<')
@@ -1286,6 +1275,21 @@ def m_handle_eq(it, n, a):
     return h_eq(a[0], a[1])
 
 
+@model(r'^<Option<&?(str|String|u8|u16|u32|u64|usize|i32|bool)> as PartialEq>::eq$')
+def m_opt_prim_eq(it, n, a):
+    x, y = deref(a[0]), deref(a[1])
+    sx, vx = opt_fork(it, x)
+    sy, vy = opt_fork(it, y)
+    if sx != sy:
+        return False
+    if not sx:
+        return True
+    vx, vy = deref(vx), deref(vy)
+    if isinstance(vx, (str, SymStr)) or isinstance(vy, (str, SymStr)):
+        return str_eq(it, vx, vy)
+    return h_eq(vx, vy)
+
+
 @model(r'^<Option<naga::Handle<.*>> as PartialEq>::eq$')
 def m_opt_handle_eq(it, n, a):
     x, y = deref(a[0]), deref(a[1])
@@ -1649,3 +1653,745 @@ def m_str_len(it, n, a):
     if isinstance(s, str):
         return len(s.encode())
     raise Unsupported(f'len of {s!r}')
+
+
+# =========================================================================================== interior-mutable global state
+@model(r'^(std::sync::atomic::)?Atomic(::<.*>)?::new$|^(std::sync::atomic::)?Atomic\w+::new$|^(std::cell::)?(Cell|RefCell)::<.*>::new$')
+def m_atomic_new(it, n, a):
+    return Agg('Atomic', [a[0]])
+
+
+@model(r'Atomic(::<.*>|\w+)::load$|(Cell)::<.*>::get$')
+def m_atomic_load(it, n, a):
+    return arg0(a).fields[0]
+
+
+@model(r'Atomic(::<.*>|\w+)::store$|(Cell)::<.*>::set$')
+def m_atomic_store(it, n, a):
+    arg0(a).fields[0] = a[1]
+    return unit()
+
+
+@model(r'Atomic(::<.*>|\w+)::(swap|fetch_or|fetch_and|fetch_add|fetch_sub)$')
+def m_atomic_rmw(it, n, a):
+    cell = arg0(a)
+    old = cell.fields[0]
+    op = re.search(r'::(\w+)$', n).group(1)
+    v = a[1]
+    if op == 'swap':
+        new = v
+    elif op in ('fetch_or', 'fetch_and') and isinstance(old, bool) and isinstance(v, bool):
+        new = (old or v) if op == 'fetch_or' else (old and v)
+    elif op == 'fetch_or':
+        new = z3.Or(old, v) if (is_sym(old) and z3.is_bool(old)) or isinstance(old, bool) else old | v
+    elif op == 'fetch_and':
+        new = z3.And(old, v) if (is_sym(old) and z3.is_bool(old)) or isinstance(old, bool) else old & v
+    elif op == 'fetch_add':
+        new = old + v
+    else:
+        new = old - v
+    cell.fields[0] = new
+    return old
+
+
+@model(r'^ExitStatus::code$')
+def m_exit_code(it, n, a):
+    st = arg0(a)
+    if len(st.fields) < 2:
+        raise Unsupported('ExitStatus::code on a status without a code model')
+    return st.fields[1]
+
+
+@model(r'^ExitStatus::(signal|core_dumped)$|ExitStatusExt>::signal$')
+def m_exit_signal(it, n, a):
+    st = arg0(a)
+    if len(st.fields) < 3:
+        raise Unsupported('ExitStatus::signal on a status without a signal model')
+    return st.fields[2]
+
+
+# =========================================================================================== wider library surface
+# (so that a changed implementation that uses other std / quote APIs is EXECUTED rather than stopping the run)
+class ZipIter(IterBase):
+    def __init__(self, a, b):
+        self.a, self.b = a, b
+
+    def nxt(self, it):
+        x = self.a.nxt(it)
+        if x is STOP:
+            return STOP
+        y = self.b.nxt(it)
+        if y is STOP:
+            return STOP
+        return tup(x, y)
+
+
+class ChainIter(IterBase):
+    def __init__(self, a, b):
+        self.a, self.b = a, b
+
+    def nxt(self, it):
+        if self.a is not None:
+            x = self.a.nxt(it)
+            if x is not STOP:
+                return x
+            self.a = None
+        return self.b.nxt(it)
+
+
+class TakeSkipIter(IterBase):
+    def __init__(self, src, n, skip):
+        self.src, self.n, self.skip, self.done = src, n, skip, False
+
+    def nxt(self, it):
+        if self.skip:
+            if not self.done:
+                for _ in range(self.n):
+                    if self.src.nxt(it) is STOP:
+                        break
+                self.done = True
+            return self.src.nxt(it)
+        if self.n <= 0:
+            return STOP
+        self.n -= 1
+        return self.src.nxt(it)
+
+
+def conc_int(it, v, what):
+    if is_sym(v):
+        raise Unsupported(f'symbolic {what}')
+    return v
+
+
+@model(r'as Iterator>::zip::<')
+def m_iter_zip(it, n, a):
+    return ZipIter(a[0], into_iter(a[1], it))
+
+
+@model(r'as Iterator>::chain::<')
+def m_iter_chain(it, n, a):
+    return ChainIter(a[0], into_iter(a[1], it))
+
+
+@model(r'as Iterator>::(take|skip)$')
+def m_iter_take_skip(it, n, a):
+    return TakeSkipIter(a[0], conc_int(it, a[1], 'take/skip count'), n.endswith('skip'))
+
+
+@model(r'as Iterator>::rev$|as DoubleEndedIterator>::rev$')
+def m_iter_rev(it, n, a):
+    return ListIter(list(reversed(a[0].drain(it))))
+
+
+@model(r'as Iterator>::(last)$')
+def m_iter_last(it, n, a):
+    xs = a[0].drain(it)
+    return some(xs[-1]) if xs else none()
+
+
+@model(r'as Iterator>::nth$')
+def m_iter_nth(it, n, a):
+    k = conc_int(it, a[1], 'nth index')
+    src = deref(a[0])
+    x = STOP
+    for _ in range(k + 1):
+        x = src.nxt(it)
+        if x is STOP:
+            return none()
+    return some(x)
+
+
+@model(r'as Iterator>::for_each::<')
+def m_iter_for_each(it, n, a):
+    for x in a[0].drain(it):
+        it.call_closure(a[1], [x])
+    return unit()
+
+
+@model(r'as Iterator>::fold::<')
+def m_iter_fold(it, n, a):
+    acc = a[1]
+    for x in a[0].drain(it):
+        acc = it.call_closure(a[2], [acc, x])
+    return acc
+
+
+@model(r'as Iterator>::(sum|product)::<')
+def m_iter_sum(it, n, a):
+    acc = 0 if '::sum' in n else 1
+    for x in a[0].drain(it):
+        x = deref(x)
+        acc = acc + x if '::sum' in n else acc * x
+    return acc
+
+
+@model(r'as Iterator>::(max_by_key|min_by_key)::<')
+def m_iter_max_by_key(it, n, a):
+    xs = a[0].drain(it)
+    if not xs:
+        return none()
+    ismax = 'max_by_key' in n
+    best, bk = xs[0], deref(it.call_closure(a[1], [mkref(xs[0])]))
+    for x in xs[1:]:
+        k = deref(it.call_closure(a[1], [mkref(x)]))
+        if is_sym(k) or is_sym(bk):
+            w = k.size() if is_sym(k) else bk.size()
+            kz = k if is_sym(k) else z3.BitVecVal(k, w)
+            bz = bk if is_sym(bk) else z3.BitVecVal(bk, w)
+            better = it.truth(z3.UGE(kz, bz) if ismax else z3.ULT(kz, bz))
+        else:
+            better = (k >= bk) if ismax else (k < bk)
+        if better:
+            best, bk = x, k
+    return some(best)
+
+
+@model(r'as Iterator>::unzip::<')
+def m_iter_unzip(it, n, a):
+    xs = a[0].drain(it)
+    return tup(VecV([x.fields[0] for x in xs]), VecV([x.fields[1] for x in xs]))
+
+
+@model(r'as Iterator>::flatten$')
+def m_iter_flatten(it, n, a):
+    out = []
+    for x in a[0].drain(it):
+        if isinstance(x, Agg) and x.path == 'Option':
+            s_, v = opt_fork(it, x)
+            if s_:
+                out.append(v)
+        else:
+            out.extend(into_iter(x, it).drain(it))
+    return ListIter(out)
+
+
+@model(r'as Iterator>::collect::<(std::collections::)?HashSet<')
+def m_iter_collect_hashset(it, n, a):
+    s = HashSetV()
+    for x in a[0].drain(it):
+        had = hs_contains(s, x)
+        if had is True:
+            continue
+        if had is not False and it.truth(had):
+            continue
+        s.items.append(deref(x))
+    return s
+
+
+@model(r'as Iterator>::collect::<(std::collections::)?BTreeMap<')
+def m_iter_collect_btree(it, n, a):
+    m = BTreeV()
+    for x in a[0].drain(it):
+        k, v = x.fields
+        i, found = bt_find(it, m, k)
+        if found:
+            m.entries[i][1] = v
+        else:
+            m.entries.insert(i, [k, v])
+    return m
+
+
+@model(r'as Iterator>::collect::<String>$')
+def m_iter_collect_string(it, n, a):
+    return sconcat([deref(x) for x in a[0].drain(it)])
+
+
+@model(r'as Iterator>::collect::<TokenStream>$|<TokenStream as FromIterator<.*>>::from_iter')
+def m_iter_collect_ts(it, n, a):
+    out = TokStream()
+    for x in into_iter(a[0], it).drain(it):
+        x = deref(x)
+        out.toks.extend(x.toks if isinstance(x, TokStream) else [x])
+    return out
+
+
+@model(r'<TokenStream as Extend<.*>>::extend')
+def m_ts_extend(it, n, a):
+    dst = arg0(a)
+    src = a[1]
+    if isinstance(deref(src), TokStream):
+        dst.toks.extend(deref(src).toks)
+    else:
+        for x in into_iter(src, it).drain(it):
+            x = deref(x)
+            dst.toks.extend(x.toks if isinstance(x, TokStream) else [x])
+    return unit()
+
+
+@model(r'^TokenStream::is_empty$')
+def m_ts_is_empty(it, n, a):
+    return len(arg0(a).toks) == 0
+
+
+@model(r'<(proc_macro2::)?(Ident|Literal) as ToString>::to_string$')
+def m_ident_to_string(it, n, a):
+    t = arg0(a)
+    if t.k == 'ident':
+        return t.v
+    from .tokens import lit_text
+    tx = lit_text(*t.v) if t.v[0] != 'string' else None
+    if isinstance(tx, str):
+        return tx
+    raise Unsupported('to_string of a symbolic / string literal token')
+
+
+@model(r'Literal::(u8|u16|u32|u64|usize|i8|i16|i32|i64|isize|f32|f64)_(suffixed|unsuffixed)$')
+def m_lit_num(it, n, a):
+    m = re.search(r'Literal::(\w+?)_(suffixed|unsuffixed)$', n)
+    ty, sfx = m.group(1), m.group(2)
+    if sfx == 'unsuffixed' and ty not in ('f32', 'f64'):
+        return Tok('lit', ('usize_unsuffixed', a[0]))
+    if sfx == 'unsuffixed':
+        raise Unsupported('unsuffixed float literal')
+    return Tok('lit', (ty, a[0]))
+
+
+@model(r'__private::mk_ident$|format_ident')
+def m_mk_ident(it, n, a):
+    return Tok('ident', deref(a[0]))
+
+
+@model(r'__private::IdentFragmentAdapter')
+def m_ident_fragment(it, n, a):
+    return a[0]
+
+
+# ---- Option -------------------------------------------------------------------------------------------------
+@model(r'^Option::<.*>::as_deref$')
+def m_opt_as_deref(it, n, a):
+    s_, v = opt_fork(it, a[0])
+    return some(deref1(v) if isinstance(v, Ref) else v) if s_ else none()
+
+
+@model(r'^Option::<.*>::filter::<')
+def m_opt_filter(it, n, a):
+    s_, v = opt_fork(it, a[0])
+    if s_ and it.truth(it.call_closure(a[1], [mkref(v)])):
+        return some(v)
+    return none()
+
+
+@model(r'^Option::<.*>::(or)$')
+def m_opt_or(it, n, a):
+    s_, v = opt_fork(it, a[0])
+    return some(v) if s_ else a[1]
+
+
+@model(r'^Option::<.*>::or_else::<')
+def m_opt_or_else(it, n, a):
+    s_, v = opt_fork(it, a[0])
+    return some(v) if s_ else it.call_closure(a[1], [])
+
+
+@model(r'^Option::<.*>::(zip)::<')
+def m_opt_zip(it, n, a):
+    s1, v1 = opt_fork(it, a[0])
+    s2, v2 = opt_fork(it, a[1])
+    return some(tup(v1, v2)) if s1 and s2 else none()
+
+
+@model(r'^Option::<.*>::map_or::<')
+def m_opt_map_or(it, n, a):
+    s_, v = opt_fork(it, a[0])
+    return it.call_closure(a[2], [v]) if s_ else a[1]
+
+
+@model(r'^Option::<.*>::map_or_else::<')
+def m_opt_map_or_else(it, n, a):
+    s_, v = opt_fork(it, a[0])
+    return it.call_closure(a[2], [v]) if s_ else it.call_closure(a[1], [])
+
+
+@model(r'^Option::<.*>::(is_some_and|is_none_or)::<')
+def m_opt_is_some_and(it, n, a):
+    s_, v = opt_fork(it, a[0])
+    if 'is_some_and' in n:
+        return it.truth(it.call_closure(a[1], [v])) if s_ else False
+    return it.truth(it.call_closure(a[1], [v])) if s_ else True
+
+
+@model(r'^Option::<.*>::(replace|insert|get_or_insert)$')
+def m_opt_replace(it, n, a):
+    r = a[0]
+    old = r.get()
+    if n.endswith('get_or_insert'):
+        s_, v = opt_fork(it, old)
+        if not s_:
+            r.set(some(a[1]))
+        return Ref(r.cell, r.path + (0,))
+    r.set(some(a[1]))
+    return old if n.endswith('replace') else Ref(r.cell, r.path + (0,))
+
+
+@model(r'^Option::<.*>::unwrap_or_default$')
+def m_opt_unwrap_or_default2(it, n, a):
+    s_, v = opt_fork(it, a[0])
+    if s_:
+        return v
+    if 'String' in n or 'str' in n:
+        return ''
+    if re.search(r'<(u|i)(8|16|32|64|size)>', n):
+        return 0
+    if 'Vec<' in n:
+        return VecV()
+    raise Unsupported(n)
+
+
+@model(r'^(std::result::)?Result::<.*>::(unwrap_or|unwrap_or_else)(::<.*>)?$')
+def m_res_unwrap_or(it, n, a):
+    isok, v = res_fork(it, a[0])
+    if isok:
+        return v
+    return a[1] if n.split('::<')[0].endswith('unwrap_or') or re.search(r'unwrap_or$', n) else it.call_closure(a[1], [v])
+
+
+# ---- Vec / slices -------------------------------------------------------------------------------------------------
+@model(r'^Vec::<.*>::(extend|extend_from_slice|append)(::<.*>)?$|<Vec<.*> as Extend<.*>>::extend')
+def m_vec_extend(it, n, a):
+    v = arg0(a)
+    src = a[1]
+    d = deref(src)
+    if isinstance(d, VecV):
+        items = list(d.items)
+        if 'append' in n:
+            d.items.clear()
+    elif isinstance(d, list):
+        items = [clone_val(x) for x in d]
+    else:
+        items = into_iter(src, it).drain(it)
+    v.items.extend(items)
+    return unit()
+
+
+@model(r'^Vec::<.*>::insert$')
+def m_vec_insert(it, n, a):
+    arg0(a).items.insert(conc_int(it, a[1], 'insert index'), a[2])
+    return unit()
+
+
+@model(r'^Vec::<.*>::remove$|^Vec::<.*>::swap_remove$')
+def m_vec_remove(it, n, a):
+    v = arg0(a)
+    i = conc_int(it, a[1], 'remove index')
+    if not (0 <= i < len(v.items)):
+        raise Panic('removal index out of bounds')
+    if n.endswith('swap_remove'):
+        v.items[i], v.items[-1] = v.items[-1], v.items[i]
+        return v.items.pop()
+    return v.items.pop(i)
+
+
+@model(r'^Vec::<.*>::pop$')
+def m_vec_pop(it, n, a):
+    v = arg0(a)
+    return some(v.items.pop()) if v.items else none()
+
+
+@model(r'^Vec::<.*>::(clear)$')
+def m_vec_clear(it, n, a):
+    arg0(a).items.clear()
+    return unit()
+
+
+@model(r'^Vec::<.*>::truncate$')
+def m_vec_truncate(it, n, a):
+    del arg0(a).items[conc_int(it, a[1], 'truncate length'):]
+    return unit()
+
+
+@model(r'^Vec::<.*>::retain::<')
+def m_vec_retain(it, n, a):
+    v = arg0(a)
+    v.items[:] = [x for x in v.items if it.truth(it.call_closure(a[1], [mkref(x)]))]
+    return unit()
+
+
+@model(r'^Vec::<.*>::dedup$')
+def m_vec_dedup(it, n, a):
+    raise Unsupported(n)
+
+
+@model(r'slice::<impl \[.*\]>::(iter_mut)$')
+def m_slice_iter_mut(it, n, a):
+    return SliceIter(deref(a[0]))
+
+
+@model(r'slice::<impl \[.*\]>::contains$')
+def m_slice_contains(it, n, a):
+    x = a[1]
+    for e in arg0(a):
+        c = h_eq(e, x) if not isinstance(deref(e), str) else (deref(e) == deref(x))
+        if it.truth(c):
+            return True
+    return False
+
+
+@model(r'slice::<impl \[.*\]>::(get|get_mut)::<usize>$')
+def m_slice_get(it, n, a):
+    items = arg0(a)
+    i = a[1]
+    if is_sym(i):
+        i = it.concretize(i, list(range(len(items))))
+        if i is None:
+            return none()
+    return some(Ref(Cell(items), (i,))) if 0 <= i < len(items) else none()
+
+
+def sort_key(it, k):
+    k = deref(k)
+    if isinstance(k, (str, int)):
+        return k
+    raise Unsupported(f'sorting by a symbolic key {k!r}')
+
+
+def sym_sort(it, items, keyf):
+    """insertion sort (stable) whose comparisons go through the solver"""
+    out = []
+    for x in items:
+        kx = keyf(x)
+        pos = len(out)
+        for j in range(len(out)):
+            kj = out[j][0]
+            if key_cmp(it, kx, kj) < 0:
+                pos = j
+                break
+        out.insert(pos, (kx, x))
+    return [x for _, x in out]
+
+
+@model(r'slice::<impl \[.*\]>::(sort_by_key|sort_unstable_by_key|sort_by_cached_key)::<')
+def m_sort_by_key2(it, n, a):
+    items = arg0(a)
+    cell = Cell(items)
+    keys = [deref(it.call_closure(a[1], [Ref(cell, (i,))])) for i in range(len(items))]
+    order = sym_sort(it, list(range(len(items))), lambda i: keys[i])
+    items[:] = [items[i] for i in order]
+    return unit()
+
+
+@model(r'slice::<impl \[.*\]>::(sort|sort_unstable)$')
+def m_sort(it, n, a):
+    items = arg0(a)
+    items[:] = sym_sort(it, list(items), lambda x: deref(x))
+    return unit()
+
+
+@model(r'slice::<impl \[.*\]>::(sort_by|sort_unstable_by)::<')
+def m_sort_by(it, n, a):
+    items = arg0(a)
+    out = []
+    for x in items:
+        pos = len(out)
+        for j in range(len(out)):
+            o = it.call_closure(a[1], [mkref(x), mkref(out[j])])
+            d = o.disc
+            if is_sym(d):
+                d = it.concretize(d, [-1, 0, 1, 255, (1 << 64) - 1])
+            if d in (-1, 255, (1 << 64) - 1) or (isinstance(d, int) and d < 0):
+                pos = j
+                break
+        out.insert(pos, x)
+    items[:] = out
+    return unit()
+
+
+@model(r'slice::<impl \[.*\]>::binary_search_by_key::<')
+def m_binary_search_by_key(it, n, a):
+    """faithful to core::slice::binary_search_by (size-halving variant of the locked std): the slice need not be sorted"""
+    items = arg0(a)
+    cell = Cell(items)
+    key = a[1]
+
+    def cmp(i):
+        return key_cmp(it, it.call_closure(a[2], [Ref(cell, (i,))]), key)
+    size = len(items)
+    if size == 0:
+        return err(0)
+    base = 0
+    while size > 1:
+        half = size // 2
+        mid = base + half
+        c = cmp(mid)
+        base = base if c > 0 else mid
+        size -= half
+    c = cmp(base)
+    if c == 0:
+        return ok(base)
+    return err(base + (1 if c < 0 else 0))
+
+
+@model(r'slice::<impl \[.*\]>::binary_search::<|slice::<impl \[.*\]>::binary_search$')
+def m_binary_search(it, n, a):
+    items = arg0(a)
+    key = a[1]
+    size = len(items)
+    if size == 0:
+        return err(0)
+    base = 0
+    while size > 1:
+        half = size // 2
+        mid = base + half
+        c = key_cmp(it, items[mid], key)
+        base = base if c > 0 else mid
+        size -= half
+    c = key_cmp(it, items[base], key)
+    if c == 0:
+        return ok(base)
+    return err(base + (1 if c < 0 else 0))
+
+
+# ---- maps / sets -------------------------------------------------------------------------------------------------
+@model(r'^BTreeMap::<.*>::(values_mut)$')
+def m_bt_values_mut(it, n, a):
+    return ListIter([Ref(SlotCell(e)) for e in arg0(a).entries])
+
+
+@model(r'^BTreeMap::<.*>::(iter_mut)$')
+def m_bt_iter_mut(it, n, a):
+    return ListIter([tup(Ref(KeyCell(e)), Ref(SlotCell(e))) for e in arg0(a).entries])
+
+
+@model(r'^BTreeMap::<.*>::get_mut::<')
+def m_bt_get_mut(it, n, a):
+    return m_bt_get(it, n, a)
+
+
+@model(r'^BTreeMap::<.*>::remove::<')
+def m_bt_remove(it, n, a):
+    m = arg0(a)
+    i, found = bt_find(it, m, a[1])
+    return some(m.entries.pop(i)[1]) if found else none()
+
+
+@model(r'^BTreeMap::<.*>::(first_key_value|last_key_value)$')
+def m_bt_first(it, n, a):
+    m = arg0(a)
+    if not m.entries:
+        return none()
+    e = m.entries[0 if 'first' in n else -1]
+    return some(tup(Ref(KeyCell(e)), Ref(SlotCell(e))))
+
+
+@model(r'^BTreeMap::<.*>::into_(values|keys)$')
+def m_bt_into_values(it, n, a):
+    m = arg0(a)
+    return ListIter([e[1] if n.endswith('values') else e[0] for e in m.entries])
+
+
+@model(r'<BTreeMap<.*> as IntoIterator>::into_iter$')
+def m_bt_into_iter(it, n, a):
+    m = a[0]
+    if isinstance(m, Ref):
+        return ListIter([tup(Ref(KeyCell(e)), Ref(SlotCell(e))) for e in deref(m).entries])
+    return ListIter([tup(e[0], e[1]) for e in m.entries])
+
+
+@model(r'<(std::collections::)?HashSet<.*> as Extend<.*>>::extend|^HashSet::<.*>::extend')
+def m_hs_extend(it, n, a):
+    s = arg0(a)
+    for x in into_iter(a[1], it).drain(it):
+        had = hs_contains(s, x)
+        if had is True:
+            continue
+        if had is not False and it.truth(had):
+            continue
+        s.items.append(deref(x))
+    return unit()
+
+
+@model(r'^HashSet::<.*>::remove::<')
+def m_hs_remove(it, n, a):
+    s = arg0(a)
+    for i, e in enumerate(s.items):
+        if it.truth(h_eq(e, a[1])):
+            s.items.pop(i)
+            return True
+    return False
+
+
+@model(r'^HashSet::<.*>::is_empty$')
+def m_hs_is_empty(it, n, a):
+    return len(arg0(a).items) == 0
+
+
+# ---- strings -------------------------------------------------------------------------------------------------
+@model(r'^String::new$')
+def m_string_new(it, n, a):
+    return ''
+
+
+@model(r'^String::(push_str|push)$')
+def m_string_push(it, n, a):
+    r = a[0]
+    cur = r.get()
+    add = deref(a[1])
+    if isinstance(add, int):
+        add = chr(add)
+    r.set(sconcat([cur, add]))
+    return unit()
+
+
+@model(r'<String as (std::ops::)?Add<&str>>::add$')
+def m_string_add(it, n, a):
+    return sconcat([a[0], deref(a[1])])
+
+
+@model(r'str>::(starts_with|ends_with|contains)::<')
+def m_str_pred(it, n, a):
+    s, p = arg0(a), deref(a[1])
+    if isinstance(s, str) and isinstance(p, str):
+        op = re.search(r'str>::(\w+)', n).group(1)
+        return {'starts_with': s.startswith(p), 'ends_with': s.endswith(p), 'contains': p in s}[op]
+    return it.truth(it.fresh('string_predicate', 'bool'))
+
+
+@model(r'str>::(to_string|to_owned)$|<&str as ToString>::to_string$')
+def m_str_to_string(it, n, a):
+    return arg0(a)
+
+
+@model(r'^(u8|u16|u32|u64|usize|i32|i64)::(saturating_sub|saturating_add|wrapping_add|wrapping_sub|max|min|pow|next_power_of_two|div_ceil)$|<(u8|u16|u32|u64|usize|i32|i64) as Ord>::(max|min)$')
+def m_int_ops(it, n, a):
+    ty = re.search(r'(u8|u16|u32|u64|usize|i32|i64)', n).group(1)
+    op = re.search(r'::(\w+)$', n).group(1)
+    w = {'u8': 8, 'u16': 16, 'u32': 32, 'u64': 64, 'usize': 64, 'i32': 32, 'i64': 64}[ty]
+    x, y = deref(a[0]), (deref(a[1]) if len(a) > 1 else None)
+    sym = is_sym(x) or is_sym(y)
+    if not sym:
+        M = (1 << w) - 1
+        return {'saturating_sub': lambda: max(0, x - y), 'saturating_add': lambda: min(M, x + y), 'wrapping_add': lambda: (x + y) & M,
+                'wrapping_sub': lambda: (x - y) & M, 'max': lambda: max(x, y), 'min': lambda: min(x, y), 'pow': lambda: (x ** y) & M,
+                'next_power_of_two': lambda: 1 << (x - 1).bit_length() if x > 1 else 1, 'div_ceil': lambda: -(-x // y)}[op]()
+    xz = x if is_sym(x) else z3.BitVecVal(x, w)
+    yz = y if (y is None or is_sym(y)) else z3.BitVecVal(y, w)
+    if op == 'max':
+        return z3.If(z3.UGE(xz, yz), xz, yz)
+    if op == 'min':
+        return z3.If(z3.ULE(xz, yz), xz, yz)
+    if op == 'saturating_sub':
+        return z3.If(z3.UGE(xz, yz), xz - yz, z3.BitVecVal(0, w))
+    if op == 'wrapping_add':
+        return xz + yz
+    if op == 'wrapping_sub':
+        return xz - yz
+    if op == 'div_ceil':
+        return z3.UDiv(xz + yz - 1, yz)
+    raise Unsupported(n)
+
+
+@model(r'^Option::<(std::result::)?Result<.*>>::transpose$')
+def m_opt_transpose(it, n, a):
+    s_, v = opt_fork(it, a[0])
+    if not s_:
+        return ok(none())
+    isok, w = res_fork(it, v)
+    return ok(some(w)) if isok else err(w)
+
+
+@model(r'^(std::result::)?Result::<Option<.*>>::transpose$')
+def m_res_transpose(it, n, a):
+    isok, v = res_fork(it, a[0])
+    if not isok:
+        return some(err(v))
+    s_, w = opt_fork(it, v)
+    return some(ok(w)) if s_ else none()
